@@ -308,6 +308,10 @@ def known_c10(prop, known):
             out.append("KNOWN-FINDING: property=C10 durablestream Read(oldest,2) on a 5-event chunk returns 2 events and a next offset after which Read returns nothing (events 3-5 unreachable by chained reads)")
         if len(reads) == 4 and "recs=1,2,3,4,5" in reads[2] and "recs=-" in reads[3]:
             out.append("KNOWN-FINDING: property=C10 durablestream synthetic per-event offsets are not resume points: Read(offset of event 1) returns nothing")
+    if "C10-sqlite-saved-offset-not-verbatim" in ids:
+        tr = _run_impl(["kind sqlite batch=0", "save w =00000000000000000003", "load w"])
+        if len(tr) >= 2 and tr[-2] == "save ok" and tr[-1] == "load 3":
+            out.append("KNOWN-FINDING: property=C10 sqlite SaveOffset(\"00000000000000000003\") succeeds and LoadOffset returns \"3\": another store's offset does not come back as it was saved")
     return out
 
 def known_c11(prop, known):
